@@ -37,6 +37,10 @@ def ambiguous_name_error(file_name, location, name, candidate_locations):
     """A name cannot be resolved because there are two or more candidates."""
     result = [error.error(file_name, location, "Ambiguous name '{}'".format(name))]
     for location in sorted(candidate_locations):
+        if location.location.is_synthetic:
+            # A built-in name (`this`) has no place in the source to point at, and
+            # a message at a synthetic location would hide the whole error.
+            continue
         result.append(
             error.note(location.file, location.location, "Possible resolution")
         )
@@ -365,6 +369,9 @@ def _find_target_of_reference(
 ):
     """Returns the resolved name of the given reference."""
     found_in_table = None
+    # `errors` is shared by the whole pass; only the errors of this reference
+    # decide whether this reference can be resolved.
+    errors_before = len(errors)
     name = reference.source_name[0].text
     for scope in visible_scopes:
         scoped_table = table[scope.module_file]
@@ -442,7 +449,7 @@ def _find_target_of_reference(
                 source_file_name, reference.source_name[0].source_location, name
             )
         )
-    if not errors:
+    if len(errors) == errors_before:
         for subname in reference.source_name:
             if subname.text not in found_in_table:
                 errors.append(
